@@ -520,6 +520,8 @@ def get_attr(eng, st, obj, name, origin):
             if r is not None:
                 return r
         raise Unsupported(f"exception attribute {name}")
+    if isinstance(obj, VFun) and name in ("__name__", "__qualname__"):
+        return _one(st, VC(str(getattr(obj, "name", "function"))))
     if isinstance(obj, VType):
         key = f"{obj.name}.{name}"
         if key in eng.world:
@@ -839,6 +841,13 @@ def call_method(eng, st, recv, name, args, kwargs, origin, star_kwargs=None):
             if s0 is not None:
                 outs.append((s0, default))
             return outs
+        if name == "pop" and args and isinstance(args[0], VC):
+            k = ("c", args[0].py)
+            if k in c:
+                return _one(st, c.pop(k))
+            if len(args) > 1:
+                return _one(st, args[1])
+            return _one(st, exc("KeyError", repr(args[0].py), origin))
         if name == "keys":
             return _one(st, st.new_list([lift(k[1]) for k in c]))
         if name == "values":
